@@ -195,6 +195,14 @@ def build_extract(name, vfile, driver):
     with Lock('extract-' + name):
         src_v = os.path.join(COQ, 'extract', vfile)
         src_d = os.path.join(COQ, 'extract', driver + '.ml')
+        # the modules the extraction file imports must be rebuilt against the regenerated tables first
+        for line in open(src_v):
+            m = re.match(r'\s*From\s+Utap(?:\.gen)?\s+Require\s+Import\s+(.*?)\.\s*$', line)
+            if m and 'Utap.gen' not in line:
+                for mod in m.group(1).split():
+                    ok, log = coq_build(mod)
+                    if not ok:
+                        return None, 'module %s does not build: %s' % (mod, log[-1500:])
         vos = [os.path.join(r, f) for r, _, fs in os.walk(os.path.join(COQ, 'theories')) for f in fs if f.endswith('.vo')]
         if _newer(out, [src_v, src_d] + vos):
             rc, o, e = sh(['timeout', '900', 'coqc', '-Q', os.path.join(COQ, 'theories'), 'Utap', src_v], cwd=EXTRACT, timeout=1000)
